@@ -219,20 +219,6 @@ Definition INS_C : N := 57345%N.
 Definition DEL_O : N := 57348%N.
 Definition DEL_C : N := 57347%N.
 
-(* a run "plain <open> text <close> plain ..." read with the groups opened by [so]
-   skipped and the other wrapper placeholders transparent *)
-Fixpoint vstr (so sc t1 t2 : N) (skip : bool) (x : str) : str :=
-  match x with
-  | [] => []
-  | c :: r =>
-      if N.eqb c so then vstr so sc t1 t2 true r
-      else if N.eqb c sc then vstr so sc t1 t2 false r
-      else if N.eqb c t1 || N.eqb c t2 then vstr so sc t1 t2 skip r
-      else if skip then vstr so sc t1 t2 skip r
-      else c :: vstr so sc t1 t2 skip r
-  end.
-Definition rstr (x : str) : str := vstr INS_O INS_C DEL_O DEL_C false x.   (* rejected (no diff:replace wrappers) *)
-
 (* accepted: the groups opened by the delete placeholder are skipped; every other placeholder (any code
    point of the placeholder range: the insert pair, and the diff:replace openers and closer, which the
    maker allocates as it goes) is transparent *)
@@ -249,6 +235,31 @@ Fixpoint astr_go (skip : bool) (x : str) : str :=
   end.
 Definition astr (x : str) : str := astr_go false x.
 
+(* rejected: the groups opened by the insert placeholder are skipped; the opener of a diff:replace group (a
+   placeholder the maker [s] has allocated, with the old text in the old-text attribute of its element) gives the
+   old text and its group is skipped; every other placeholder is transparent *)
+Definition REP_O : N := 57350%N.
+Definition REP_C : N := 57349%N.
+Definition rold (s : pstate) (c : N) : option str :=
+  match Placeholder.p2t_get (Placeholder.p2t s) c with
+  | Some (el, Placeholder.TOpen, Some cl) =>
+      if N.eqb cl REP_C then Some (match aget (xattrs el) s_old_text with Some o => o | None => [] end) else None
+  | _ => None
+  end.
+Fixpoint rstr_go (s : pstate) (skip : bool) (x : str) : str :=
+  match x with
+  | [] => []
+  | c :: r =>
+      if N.eqb c INS_O then rstr_go s true r
+      else if N.eqb c INS_C || N.eqb c REP_C then rstr_go s false r
+      else match rold s c with
+           | Some old => (if skip then [] else old) ++ rstr_go s true r
+           | None => if is_pua c then rstr_go s skip r
+                     else if skip then rstr_go s skip r else c :: rstr_go s skip r
+           end
+  end.
+Definition rstr (s : pstate) (x : str) : str := rstr_go s false x.
+
 Definition alive_r (t : xtree) : bool := negb (is_inserted t).
 
 Fixpoint aw (W : xtree) : xtree :=
@@ -262,14 +273,14 @@ Fixpoint aw (W : xtree) : xtree :=
                 end) kids)
   end.
 
-Fixpoint rw (W : xtree) : xtree :=
+Fixpoint rw (s : pstate) (W : xtree) : xtree :=
   match W with
   | XNode tag attrs text tail kids =>
-      XNode (proj_tag false W) (old_attrs attrs) (Some (rstr (otxt text))) (rstr tail)
+      XNode (proj_tag false W) (old_attrs attrs) (Some (rstr s (otxt text))) (rstr s tail)
             ((fix go (ks : list xtree) : list xtree :=
                 match ks with
                 | [] => []
-                | k :: r => if alive_r k then rw k :: go r else go r
+                | k :: r => if alive_r k then rw s k :: go r else go r
                 end) kids)
   end.
 
@@ -281,10 +292,10 @@ Proof.
   destruct (alive_w k); cbn; [f_equal|]; exact IH.
 Qed.
 
-Lemma rw_unfold tag attrs text tail kids :
-  rw (XNode tag attrs text tail kids)
+Lemma rw_unfold s tag attrs text tail kids :
+  rw s (XNode tag attrs text tail kids)
   = XNode (proj_tag false (XNode tag attrs text tail kids)) (old_attrs attrs)
-          (Some (rstr (otxt text))) (rstr tail) (map rw (filter alive_r kids)).
+          (Some (rstr s (otxt text))) (rstr s tail) (map (rw s) (filter alive_r kids)).
 Proof.
   cbn [rw]. f_equal. induction kids as [|k r IH]; cbn; [reflexivity|].
   destruct (alive_r k); cbn; [f_equal|]; exact IH.
